@@ -298,7 +298,12 @@ class Sched:
 
     def sleep(self, dt):
         me = self.me()
-        if me is None or self.abort:
+        if me is None:
+            # a finaliser running outside any simulated task (thread teardown): it must not
+            # move the simulated clock under the feet of the running task
+            self.stats["stray_finalizer_sleeps"] = self.stats.get("stray_finalizer_sleeps", 0) + 1
+            return
+        if self.abort:
             self.now += float(dt)
             boot.CLOCK.now = self.now
             return
@@ -480,18 +485,27 @@ class SimProcess:
                 boot.numba_seed(t.seed)
                 target, args, kwargs = pickle.loads(payload)
                 target(*args, **kwargs)
-            except _Abort:
-                code = None
-            except _Killed:
-                code = -9
-            except _Die as d:
-                code = d.code
-            except Exception as e:  # uncaught exception in a child: exit code 1
-                code = 1
-                t.error = f"{type(e).__name__}: {e}"
             except BaseException as e:
-                code = 1
-                t.error = f"{type(e).__name__}: {e}"
+                if isinstance(e, _Abort):
+                    code = None
+                elif isinstance(e, _Killed):
+                    code = -9
+                elif isinstance(e, _Die):
+                    code = e.code
+                else:  # uncaught exception in a child: exit code 1
+                    code = 1
+                    t.error = f"{type(e).__name__}: {e}"
+                # release the dead process's frames (and the sketches attached in them) here,
+                # while this task still holds the baton; left to thread teardown their
+                # finalisers would run concurrently with the next task
+                import traceback as _tb
+
+                try:
+                    _tb.clear_frames(e.__traceback__)
+                except Exception:
+                    pass
+                e.__traceback__ = None
+            target = args = kwargs = None
             t.exitcode = code
             try:
                 s.finish(t)
@@ -603,6 +617,13 @@ def callback(q_item, *sketches, **kwargs):
         fire()
     if phase == "after":
         fire()
+    rt = run.get("ret_type", "int")
+    if rt == "int64":
+        return np.int64(n_recs)
+    if rt == "uint64":
+        return np.uint64(n_recs)
+    if rt == "int32":
+        return np.int32(n_recs)
     return n_recs
 
 
@@ -673,7 +694,7 @@ def simulate(desc, rng=None):
     run = {"plan": {int(k): v for k, v in desc.get("plan", {}).items()}, "ledger": [], "fired": [], "segments": [],
            "preempt": desc.get("preempt", True), "tag": desc.get("tag", "t"), "seed": desc.get("seed", 0), "draw_ctr": 0, "attaches": 0,
            "delays": {int(k): v for k, v in desc.get("delays", {}).items()}, "takes": {}, "lost_items": [],
-           "pill_death": desc.get("pill_death"), "take_death": desc.get("take_death"), "death_code": desc.get("death_code", 7)}
+           "ret_type": desc.get("ret_type", "int"), "pill_death": desc.get("pill_death"), "take_death": desc.get("take_death"), "death_code": desc.get("death_code", 7)}
     _RUN = run
     boot.CLOCK.reset()
     boot.CLOCK.hook = s.sleep
